@@ -186,7 +186,7 @@ CLAIMS['C17'] = dict(category='proof', ref='5 Core F, 8 C17',
          "lengths and every schedule of thread and consumer steps: no producer step writes a cell holding an unread byte, at most size bytes are unread "
          "(C17_wrap_safety); bytes observed ++ unread bytes on the ring = concatenation of the committed packets in commit order, so the observed stream is a prefix of "
          "whole packets (C17_wrap_stream); per-thread order kept, nothing lost, a delivery fails exactly when its packet is longer than the ring (C17_wrap_order); "
-         "mutual exclusion and per-program-counter assertions (C17_wrap_critical_section); runs from different initial scratch buffers agree on stream, ring, "
+         "mutual exclusion and per-program-counter assertions (C17_wrap_critical_section; as the ring sees it - one producer at a time, the hypothesis of the ring contract of C15/C16: C17_wrap_one_producer); runs from different initial scratch buffers agree on stream, ring, "
          "cursors, threads and log after every step (C17_wrap_scratch_irrelevant); closed counterexamples: Write(outtmp) instead of outtmp[0:n] emits stale bytes "
          "when a small packet wraps after a larger one (C17_wrap_whole_scratch_counterexample), without wmu two wrapping deliveries share the scratch buffer and one "
          "packet is sent twice, the other never (C17_wrap_unlocked_counterexample); progress under an explicit fairness hypothesis - every segment scheduling each "
@@ -204,7 +204,7 @@ CLAIMS['C17'] = dict(category='proof', ref='5 Core F, 8 C17',
          "(Len()-vs-Encode() mismatch A2 belongs there); that no write bypasses wmu is C18.")
 
 CLAIMS['C16'] = dict(category='proof', ref='5 Core F, 8 C16',
-    text="Lean 4 theorems (23), for ALL initial buffer states, traffic, schedules of thread steps and interleaved environment events (peer closes / stops "
+    text="Lean 4 theorems (26), for ALL initial buffer states, traffic, schedules of thread steps and interleaved environment events (peer closes / stops "
          "reading / keep-alive fires / the connection a delivery is addressed to blocks / Server.Close), over a small-step model of one connection's "
          "life-cycle at ring-call granularity (receiver, processor, sender, any number of stop() callers and of external writers; Model/Lifecycle.lean): "
          "invariants in every reachable state (C16_invariant); at most one stop() call past the CAS, effects unsubscribe / will-if-flag / delete-if-clean "
@@ -239,7 +239,17 @@ CLAIMS['C16'] = dict(category='proof', ref='5 Core F, 8 C16',
          "regenerated from the source and tied by decide (C16_source_shape). Tied to the real broker by fault sequences (8 buffer conditions x 6 causes x "
          "order of ends, raw clients that stop reading; model stream = outcome of the model under fair round-robin, line equality). PARTIAL: bounded "
          "time = bounded number of own steps under weak fairness of the Go scheduler (trusted); socket semantics are parameters; the rings are abstracted "
-         "to call level - that contract is C15's, cited, not re-derived; one connection is modelled, the broker around it is environment. OPEN (finding F8, "
+         "to call level (RingA = bytes buffered + done, one atomic step per ring call, a waiting call = a step that is not enabled) - that contract is now DERIVED "
+         "from the program-counter-level ring program of C14/C15 and cited formally: C16_ring_contract_is_C15 (every complete Write/WriteWait/WriteCommit, "
+         "ReadWait/ReadPeek/ReadCommit, Close and ReadFrom iteration of Model/Ring, under any interleaving, answers what RingA.waitSpace/commitP/waitData/commitC/close "
+         "answer on (pseq-cseq, done) at one own step of the call, has exactly that effect, and is parked at quiescence iff that function answers none), "
+         "C16_ring_steps_use_ringA (each life-cycle ring step is enabled iff its RingA function answers), C16_out_ring_one_producer (wmu: the outgoing ring sees one "
+         "producer at a time; for the code: C17_wrap_one_producer). STILL NOT COVERED, found by the derivation: RingA tests done and the cursors atomically, "
+         "buffer.go at two statements of a call - a producer already inside a ring call when the ring is closed may still commit and return ok "
+         "(C15_ringA_gap_late_commit), ReadWait may answer end-of-stream although the bytes arrived between its two tests (C15_ringA_gap_eof_with_data); "
+         "the model has neither interleaving, so C16_late_delivery_fails_fast speaks of ring calls that START after the close, and the teardown theorems "
+         "do not cover a late commit into a closed ring (their conclusions do not mention ring contents; argued harmless in NOTES-ringlife.md, not proved); "
+         "one connection is modelled, the broker around it is environment. OPEN (finding F8, "
          "with C19): 'ended' presupposes that the end can be noticed - a connection whose client has stopped reading and kept sending until BOTH rings are "
          "full has its receiver waiting because the incoming ring is completely full, no read pending, no deadline armed; keep-alive never fires on it (scenario selffull keepalive: "
          "token held-up-by-self, accepted only inside this known-finding class; NOTES-f7.md).",
@@ -251,7 +261,7 @@ CLAIMS['C14'] = dict(category='proof', ref='5 Core D, 8 C14',
     note='Trusted: Lean kernel; axioms propext/Classical.choice/Quot.sound only; Go harness (model-guided scheduler at the verifYield marks) + line protocol + fact extractor; Go runtime semantics assumed by the model: sync.Mutex, sync.Cond, sequentially consistent atomics, scheduler fairness for liveness (see evidence.assumptions, NOTES-ring.md)')
 
 CLAIMS['C15'] = dict(category='proof', ref='5 Core D, 8 C15',
-    text='Lean 4 theorems over all programs and schedules of the repaired buffer: a mutex is held only inside its critical section (never by a returned thread), no lost wake-up (a parked waiter whose condition is met has a pending broadcaster), Close is a straight line of 7 own steps blocked only by a held mutex whose holder is enabled and releases within 3 steps, done exits every wait loop, a termination measure strictly decreasing with every enabled step (no livelock; at most mu(init) enabled steps in any schedule), and at quiescence every unfinished call waits legitimately (all returned once Close was called); ReadFrom (8f682d1) never hands its reader an empty slice, its WriteCommit never waits, and it is kept from reading only by a completely full, open ring (C15_ReadFrom_reads_nonempty, C15_ReadFrom_waits_only_when_full; before the repair: by less than a read block free, finding F3); scheduler fairness is the remaining hypothesis; tie as C14 with the lock probe compared after every step and a fair finish phase (Close, later calls) on the real buffer',
+    text='Lean 4 theorems over all programs and schedules of the repaired buffer: a mutex is held only inside its critical section (never by a returned thread), no lost wake-up (a parked waiter whose condition is met has a pending broadcaster), Close is a straight line of 7 own steps blocked only by a held mutex whose holder is enabled and releases within 3 steps, done exits every wait loop, a termination measure strictly decreasing with every enabled step (no livelock; at most mu(init) enabled steps in any schedule), and at quiescence every unfinished call waits legitimately (all returned once Close was called); ReadFrom (8f682d1) never hands its reader an empty slice, its WriteCommit never waits, and it is kept from reading only by a completely full, open ring (C15_ReadFrom_reads_nonempty, C15_ReadFrom_waits_only_when_full; before the repair: by less than a read block free, finding F3); AT CALL LEVEL (the contract the connection life-cycle model of C16 is built on, derived here): through absRing = (pseq - cseq, done) every step of the program is RingA.commitP (+n, producer only, buf+n <= cap before it), RingA.commitC (-n, consumer only, n <= buf), RingA.close, or invisible (C15_step_refines_ringA, C15_single_writer); a complete Write/WriteWait/WriteCommit resp. ReadWait/ReadPeek/ReadCommit resp. Close, from call to return under ANY interleaving, has the outcome and the net effect of the corresponding RingA function at one own step - ok only if the ring was open when the call started and (producer) exactly l bytes are committed with buf+l <= cap at that step, end-of-stream only with done set, ErrBufferFull iff the request exceeds the ring - and at quiescence the call is unfinished iff it is parked and that function answers none (C15_call_refines_ringA_producer, _consumer, _close, C15_parked_iff_guard_false); one iteration of ReadFrom is wait-for-one-byte / read at most cap-buf / commit that fits / exit through its deferred Close (C15_readfrom_refines_ringA). NOT the atomic RingA in one respect, exhibited as closed executions: done and the cursors are tested at two statements of a call, so a producer woken by (or past its isDone test before) Close commits and returns ok if the consumer has freed space meanwhile, and ReadWait answers end-of-stream although the bytes were committed between its cursor test and its done test (C15_ringA_gap_late_commit, C15_ringA_gap_eof_with_data; by the letter of "every blocked call returns with end-of-stream" the first is a deviation of buffer.go, harmless for a ring nobody reads any more); scheduler fairness is the remaining hypothesis; tie as C14 with the lock probe compared after every step and a fair finish phase (Close, later calls) on the real buffer',
     technique='machine-checked proof in Lean 4 (invariants of a concurrent small-step program, for all schedules) + differential correspondence of schedules on the real buffer',
     note='Trusted: Lean kernel; axioms propext/Classical.choice/Quot.sound only; Go harness (model-guided scheduler at the verifYield marks) + line protocol + fact extractor; Go runtime semantics assumed by the model: sync.Mutex, sync.Cond, sequentially consistent atomics, scheduler fairness for liveness (see evidence.assumptions, NOTES-ring.md)')
 CLAIMS['C18'] = dict(category='other', ref='5 Core G, 8 C18',
